@@ -20,6 +20,10 @@ pub fn base_seed() -> u64 {
     std::env::var("VERIF_SEED").ok().and_then(|s| s.trim().parse::<u64>().ok()).unwrap_or(DEFAULT_SEED)
 }
 
+pub fn watchdog_secs() -> u64 {
+    std::env::var("VERIF_WATCHDOG_SECS").ok().and_then(|s| s.parse().ok()).unwrap_or(120)
+}
+
 pub fn scratch_root() -> PathBuf {
     if let Ok(s) = std::env::var("VERIF_SCRATCH") {
         return PathBuf::from(s);
@@ -207,6 +211,32 @@ pub fn worker_main(prop: &str, tier: Tier, widx: u64, wcount: u64, out: &Path) -
     let findings = load_findings().unwrap_or_default();
     let seed = base_seed();
     let mut agg = Agg::new();
+    // Watchdog: a task that loops without ever yielding cannot be interrupted by the
+    // simulator; a run that exceeds the wall-clock bound is reported as non-termination
+    // (the only verdict in this framework that depends on wall time).
+    let current: std::sync::Arc<std::sync::Mutex<Option<(String, u64, Instant)>>> = std::sync::Arc::new(std::sync::Mutex::new(None));
+    {
+        let current = current.clone();
+        let out = out.to_path_buf();
+        let prop = prop.to_string();
+        let limit = watchdog_secs();
+        std::thread::spawn(move || loop {
+            std::thread::sleep(std::time::Duration::from_millis(500));
+            let cur = current.lock().unwrap().clone();
+            if let Some((scen, idx, started)) = cur {
+                if started.elapsed().as_secs() >= limit {
+                    let v = json!({
+                        "property": prop, "scenario": scen, "tier": tier.as_str(), "index": idx, "seed": seed,
+                        "clause": format!("{prop}.run_terminates"),
+                        "detail": format!("run did not finish within {limit} s of wall time: some task loops without yielding (scenario {scen}, index {idx})"),
+                        "tape": Value::Null, "trace": [],
+                    });
+                    let _ = std::fs::write(out.with_extension("hang"), serde_json::to_string(&v).unwrap());
+                    std::process::exit(3);
+                }
+            }
+        });
+    }
     let scale: f64 = std::env::var("VERIF_SCALE").ok().and_then(|s| s.parse().ok()).unwrap_or(1.0);
     let only = std::env::var("VERIF_ONLY").ok();
     'outer: for sc in &spec.scenarios {
@@ -221,7 +251,9 @@ pub fn worker_main(prop: &str, tier: Tier, widx: u64, wcount: u64, out: &Path) -
                 index: idx,
                 keep_trace: false,
             };
+            *current.lock().unwrap() = Some((sc.name.to_string(), idx, Instant::now()));
             let r = execute(sc, &cfg, TapeSrc::Seed(run_seed(seed, sc.name, idx)));
+            *current.lock().unwrap() = None;
             agg.runs += 1;
             *agg.per_scenario.entry(sc.name.to_string()).or_insert(0) += 1;
             agg.steps += r.steps;
@@ -397,6 +429,14 @@ pub fn check_main(prop: &str, tier: Tier) -> i32 {
     for (w, mut c, out) in children {
         let status = c.wait();
         let ok = matches!(&status, Ok(s) if s.success());
+        if matches!(&status, Ok(s) if s.code() == Some(3)) {
+            if let Ok(text) = std::fs::read_to_string(out.with_extension("hang")) {
+                if let Ok(v) = serde_json::from_str::<Value>(&text) {
+                    violations.push(v);
+                    continue;
+                }
+            }
+        }
         if !ok {
             harness_errors.push(format!("worker {w} exited with {status:?}"));
             continue;
@@ -582,10 +622,24 @@ pub fn replay_main(path: &Path) -> i32 {
     let tier = if v["tier"].as_str() == Some("thorough") { Tier::Thorough } else { Tier::Quick };
     let index = v["index"].as_u64().unwrap_or(0);
     let clause = v["clause"].as_str().unwrap_or("");
+    let seed_mode = v["tape"].is_null();
     let tape: Vec<u32> = v["tape"]
         .as_array()
         .map(|a| a.iter().map(|x| x.as_u64().unwrap_or(0) as u32).collect())
         .unwrap_or_default();
+    {
+        // same wall-clock bound as in search mode
+        let limit = watchdog_secs();
+        let path = path.to_path_buf();
+        let prop = prop.to_string();
+        let clause = clause.to_string();
+        std::thread::spawn(move || {
+            std::thread::sleep(std::time::Duration::from_secs(limit));
+            println!("VIOLATION property={} replay={}", prop, path.display());
+            println!("  clause={clause} detail=replayed run did not finish within {limit} s of wall time");
+            std::process::exit(1);
+        });
+    }
     let spec = match property_spec(prop) {
         Some(s) => s,
         None => {
@@ -605,7 +659,8 @@ pub fn replay_main(path: &Path) -> i32 {
         index,
         keep_trace: true,
     };
-    let r = execute(sc, &cfg, TapeSrc::Replay(tape));
+    let src = if seed_mode { TapeSrc::Seed(run_seed(v["seed"].as_u64().unwrap_or(DEFAULT_SEED), sc.name, index)) } else { TapeSrc::Replay(tape) };
+    let r = execute(sc, &cfg, src);
     for line in &r.trace {
         println!("{line}");
     }
